@@ -357,6 +357,72 @@ theorem C03_refused_assignment_noop (P : Params) (fuel : Nat) (s : S) (c : Nat) 
     (h : (setVal P fuel s c v).2 = some e) : (setVal P fuel s c v).1 = s :=
   setVal_err P fuel s c v e h
 
+/-- an ill-typed assignment **is** refused: delivering a value that the strict hint of the
+addressed channel rejects raises (TypeError; RuntimeError if the input is locked first;
+RecursionError without stack left) whatever the receivers are, and the whole state is as before -/
+theorem C03_bad_rejected (P : Params) (fuel : Nat) (s : S) (c : Nat) (v : Val)
+    (hs : s.strict c = true) (hh : s.hinted c = true) (hv : v ≠ .nd) (ha : P.admits c v = false) :
+    ∃ e, setVal P fuel s c v = (s, some e) := by
+  cases h : (setVal P fuel s c v).2 with
+  | none =>
+    obtain ⟨l, hc, _, hpass, _⟩ := setVal_ok P fuel s c v h
+    exact absurd ⟨hs, hv, hh, ha⟩ (hpass c hc).2
+  | some e => exact ⟨e, Prod.ext (setVal_err P fuel s c v e h) h⟩
+
+/-- an accepted assignment changes a channel only by storing the delivered value there, and
+every channel it changes — the addressed one and every receiver down the chain (macro input →
+child input → …) — let the value pass its own strict hint -/
+theorem C03_forward_checked (P : Params) (fuel : Nat) (s : S) (c : Nat) (v : Val)
+    (h : (setVal P fuel s c v).2 = none) :
+    (setVal P fuel s c v).1.val c = v ∧
+    ∀ x, (setVal P fuel s c v).1.val x ≠ s.val x →
+      (setVal P fuel s c v).1.val x = v ∧
+      ¬ (s.strict x = true ∧ v ≠ .nd ∧ s.hinted x = true ∧ P.admits x v = false) := by
+  obtain ⟨l, hc, hval, hpass, _⟩ := setVal_ok P fuel s c v h
+  refine ⟨by rw [hval c]; simp [hc], ?_⟩
+  intro x hx
+  rw [hval x] at hx ⊢
+  by_cases hxl : x ∈ l
+  · exact ⟨by simp [hxl], (hpass x hxl).2⟩
+  · simp [hxl] at hx
+
+/-- the three ways a run ends without invoking the function: a keyword is refused, the fetch is
+refused (TypeError of a hint-violating upstream value, RuntimeError of a locked input), or —
+once both went through — the gate refuses, and then it is a **ReadinessError** raised in
+exactly the state the fetch left -/
+theorem C03_refusal_kind (P : Params) (fuel : Nat) (s : S) (n : Nat) (kw : List (Nat × Arg)) (e : Err)
+    (href : (runNode P fuel s n kw).2 = .err e) :
+    (∃ s1, setInputs P fuel s kw = (s1, some e) ∧ (runNode P fuel s n kw).1 = s1) ∨
+    (∃ s1 s2, setInputs P fuel s kw = (s1, none) ∧ fetchAll P fuel s1 (s1.ins n) = (s2, some e) ∧
+        (runNode P fuel s n kw).1 = s2) ∨
+    (∃ s1 s2, setInputs P fuel s kw = (s1, none) ∧ fetchAll P fuel s1 (s1.ins n) = (s2, none) ∧
+        nodeReady P s2 n = false ∧ e = .readiness ∧ (runNode P fuel s n kw).1 = s2) := by
+  unfold runNode at href ⊢
+  split
+  · rename_i s1 e1 heq
+    rw [heq] at href
+    simp only [Out.err.injEq] at href
+    subst href
+    exact Or.inl ⟨s1, heq, rfl⟩
+  · rename_i s1 heq
+    rw [heq] at href
+    simp only at href ⊢
+    split
+    · rename_i s2 e2 heq2
+      rw [heq2] at href
+      simp only [Out.err.injEq] at href
+      subst href
+      exact Or.inr (Or.inl ⟨s1, s2, heq, heq2, rfl⟩)
+    · rename_i s2 heq2
+      rw [heq2] at href
+      simp only at href ⊢
+      by_cases hrd : nodeReady P s2 n = true
+      · simp only [hrd, if_true] at href
+        split at href <;> cases href
+      · simp only [hrd] at href ⊢
+        simp only [Bool.false_eq_true, if_false, Out.err.injEq] at href ⊢
+        exact Or.inr (Or.inr ⟨s1, s2, heq, heq2, by simpa using hrd, href.symm, rfl⟩)
+
 /-! ## concrete worlds (non-vacuity and the witness for the excluded operation) -/
 
 def exKind (c : Nat) : Kind := if c < 3 ∨ c = 20 ∨ c = 21 then .dataIn else .dataOut
@@ -405,6 +471,28 @@ example : (runNode exP 8 exS 0 [(2, .v (.d 5))]).2 = .invoked none ∧
 -- a hint-violating upstream value refuses the run by the TypeError of the fetch itself
 example : (runNode exP 8 (Data.run exP 8 exS [.set 12 (.d 500)]) 0 [(2, .v (.d 5))]).2 = .err .type := by decide
 example : ∀ op ∈ exOps, op.noActivate := by decide
+-- C03_bad_rejected: its hypotheses hold for channel 0 of exS and the value 500, and for the head 21 of
+-- the chain 21 → 20 → 0 the refusal comes from a receiver two links down (21 itself has no hint)
+example : exS.strict 0 = true ∧ exS.hinted 0 = true ∧ Val.d 500 ≠ .nd ∧ exP.admits 0 (.d 500) = false ∧
+    (setVal exP 8 exS 0 (.d 500)).2 = some .type := by decide
+example : exS.hinted 21 = false ∧ (setVal exP 8 exS 21 (.d 500)).2 = some .type := by decide
+-- C03_forward_checked: an accepted delivery to 21 changes exactly 21, 20 and 0
+example : (setVal exP 8 exS 21 (.d 8)).2 = none ∧
+    ((setVal exP 8 exS 21 (.d 8)).1.val 21, (setVal exP 8 exS 21 (.d 8)).1.val 20,
+     (setVal exP 8 exS 21 (.d 8)).1.val 0, (setVal exP 8 exS 21 (.d 8)).1.val 1) = (.d 8, .d 8, .d 8, .d 100) := by
+  decide
+-- C03_refusal_kind: all three alternatives occur (keyword refused / fetch refused / gate refused)
+example : (runNode exP 8 exS 0 [(1, .v (.d 5))]).2 = .err .type ∧
+    (setInputs exP 8 exS [(1, .v (.d 5))]).2 = some .type := by decide
+example : (runNode exP 8 (Data.run exP 8 exS [.set 12 (.d 500)]) 0 []).2 = .err .type ∧
+    (setInputs exP 8 (Data.run exP 8 exS [.set 12 (.d 500)]) []).2 = none := by decide
+example : (runNode exP 8 exS 0 []).2 = .err .readiness ∧ (fetchAll exP 8 exS (exS.ins 0)).2 = none ∧
+    nodeReady exP (fetchAll exP 8 exS (exS.ins 0)).1 0 = false := by decide
+-- C03_refused_clean: its hypotheses hold in exS (receivers have the kind of their sender, the panel of
+-- node 0 consists of inputs) and a refused run exists there (previous example)
+example : RecvKind exS :=
+  (run_pres (wf_pres exP) 8 _ exOps (Or.inl rfl) (init_wf exP _ _ _ _ _ _)).recv
+example : ∀ i ∈ exS.ins 0, exS.kind i = .dataIn := by decide
 
 /-- the excluded operation matters: store a value while hints are not strict, then switch
 them on — a strict hinted channel now holds a value its hint rejects (this is by design of
@@ -432,4 +520,7 @@ end PwVerif.C03
 #print axioms PwVerif.C03.C03_no_bad_store_step
 #print axioms PwVerif.C03.C03_no_bad_store
 #print axioms PwVerif.C03.C03_refused_assignment_noop
+#print axioms PwVerif.C03.C03_bad_rejected
+#print axioms PwVerif.C03.C03_forward_checked
+#print axioms PwVerif.C03.C03_refusal_kind
 #print axioms PwVerif.C03.C03_activate_witness
